@@ -45,6 +45,38 @@ def long_traces(ctx, n):
     return cases
 
 
+def big_block_traces(ctx, n):
+    """Heaps with the starting block the dense writers use (512 KiB): objects placed beyond 64 KiB inside ONE direct block."""
+    rng = random.Random(ctx.seed * 2654435761 + 1515)
+    cases = []
+    for k in range(n):
+        block = 524288
+        ops, nins, live, vol = [], 0, [], 0
+        for _ in range(rng.randint(8, 40)):
+            r = rng.random()
+            if r < 0.6:
+                ln = rng.choice([1, 26, 300, 4000, 20000, 40000, 65535, 65536, 30000])
+                if vol + ln > block - 64:       # stay inside the first direct block: the indirect root is another matter
+                    continue
+                vol += ln
+                ops.append({"op": "ins", "len": ln, "i": 0})
+                nins += 1
+                live.append((nins, ln))
+            elif r < 0.72 and live:
+                i, ln = rng.choice(live)
+                ops.append({"op": "ovw", "len": ln, "i": i})
+            elif r < 0.8 and live:
+                i, ln = rng.choice(live)
+                ops.append({"op": "del", "len": 0, "i": i})
+                live.remove((i, ln))
+            elif r < 0.9:
+                ops.append({"op": "write", "len": 0, "i": 0})
+            else:
+                ops.append({"op": "load", "len": 0, "i": 0})
+        cases.append({"cfg": {"block": block}, "ops": ops})
+    return cases
+
+
 def run(ctx):
     thorough = ctx.tier == "thorough"
     mc = ctx.model_check("C15MC.tla", "C15_mc_thorough.cfg" if thorough else "C15_mc.cfg", workers=min(8, ctx.workers), coverage=thorough)
@@ -62,6 +94,7 @@ def run(ctx):
                                                                         {"op": "ins", "len": 7, "i": 0}, {"op": "write", "len": 0, "i": 0},
                                                                         {"op": "load", "len": 0, "i": 0}, {"op": "ins", "len": 3, "i": 0}]
             cases.append({"cfg": {"block": block}, "ops": ops})
+    cases += big_block_traces(ctx, 40 if thorough else 10)
     path = ctx.write_cases(cases)
     trace, out = ctx.drive("c15", path)
     H.log(out.strip())
